@@ -7,7 +7,8 @@ Import ListNotations.
 From Coq Require Import QArith Qcanon.
 From SV Require Import Base.Ops Base.Arr Model.Vec3 Model.Scene Model.Visibility
   Spec.VisibilitySpec Proofs.VisibilityScan Proofs.VisibilitySym Proofs.VisibilitySegment
-  Instances.VisibilityQc.
+  Proofs.PipRect Proofs.PipRectSurface Proofs.PipGeneral Proofs.PipTriangle
+  Instances.VisibilityQc Instances.PipRectQc.
 Close Scope Qc_scope.
 Close Scope Q_scope.
 
@@ -116,12 +117,13 @@ Theorem C07_segment_logic_coplanar {T} {O : Ops T} {RL : RingLaws T} {OL : Order
 Proof. exact (basic_visibility_coplanar eps eta inpoly s p q). Qed.
 Print Assumptions C07_segment_logic_coplanar.
 
-(** (4) C07_partial.  Of [pip_correct] only the coplanarity gate is proved: a point further
-    than eta from the plane is never reported inside.  The correctness of the winding count
-    itself (rotation to the horizontal plane incl. the special cases of [_rotation_matrix],
-    the epsilon gate for sides parallel to the ray, the eta on-segment test) is NOT proved --
-    NOT_CARRIED in harness/props/C07.py; it is validated against an exact-rational
-    half-plane oracle on every run ... *)
+(** (4) C07_partial.  For a GENERAL polygon only the coplanarity gate of [pip_correct] is proved:
+    a point further than eta from the plane is never reported inside.  The correctness of the
+    winding count itself (rotation to the horizontal plane incl. the special cases of
+    [_rotation_matrix], the epsilon gate for sides parallel to the ray, the eta on-segment test)
+    is proved for axis-aligned rectangular surfaces only -- (5), (6) below; for general convex
+    polygons and rotated surfaces it is NOT proved (NOT_CARRIED in harness/props/C07.py) and is
+    validated against an exact-rational half-plane oracle on every run ... *)
 Theorem C07_partial {T} {O : Ops T} {RL : RingLaws T} {OL : OrderLaws T} {FL : FieldLaws T}
     {AL : AbsLaws T} (eps eta : T) (s : surface) (x : @vec T) :
   (eta < tabs (side_of s x))%T -> point_in_polygon eps eta x (s_pts s) (s_nrm s) = false.
@@ -141,3 +143,168 @@ Theorem C07_pip_correct_refuted :
     basic_visibility e6 e6 p q (poly, n) = false.
 Proof. exact pip_correct_refuted_witness. Qed.
 Print Assumptions C07_pip_correct_refuted.
+
+(** (5) C07_pip_correct_rect -- [pip_correct_at] PROVED for the surfaces of shoebox rooms.
+    An axis-aligned rectangular surface [r : rect]: orthogonal to the axis [r_axis r] (x, y or z) at
+    position [r_c r], normal + or - the unit vector of that axis ([r_up r]), spanned in the in-plane
+    coordinates (u, v) by the opposite corners (ua, va), (ub, vb) (in either order: ua <> ub,
+    va <> vb, [rect_wf]) and listed starting at (ua, va) towards (ua, vb) or towards (ub, va)
+    ([r_vfirst r]) -- the 6 orientations x 8 vertex orders.  [in_rect r] is the open rectangle
+    (strictly between the corners in u and in v), [in_rect_closed r] the closed one,
+    [off_bands m r x]: x is farther than m from the four edge lines.
+
+    Needs sqrt: [SqrtLaws] (sqrt x >= 0 and sqrt x ^2 = x for x >= 0, |.|).  Tolerances:
+    0 <= epsilon < 1 (a side parallel to the ray is skipped because 0 <= epsilon, a side
+    orthogonal to it has a unit normal and passes the gate because epsilon < 1), 0 <= eta, and
+    the margin m with eta <= 2 m: the on-segment test | |b-a0| + |b-a1| - |a1-a0| | <= eta
+    accepts exactly the points within eta/2 of the side, so eta/2 is the smallest margin
+    (C07_pip_rect_margin_sharp); m = eta, and the property's 1 mm, qualify. *)
+Theorem C07_pip_correct_rect {T} {O : Ops T} {RL : RingLaws T} {OL : OrderLaws T} {FL : FieldLaws T}
+    {SL : SqrtLaws T} (eps eta m : T) (r : rect) (x : @vec T) :
+  (0 <= eps)%T -> (eps < 1)%T -> (0 <= eta)%T -> (eta <= m + m)%T -> rect_wf r ->
+  (tabs (side_of (rect_surface r) x) <= eta)%T -> off_bands m r x ->
+  pip_correct_at eps eta (in_rect r) (rect_surface r) x.
+Proof. exact (pip_correct_rect eps eta m r x). Qed.
+Print Assumptions C07_pip_correct_rect.
+
+(** ... likewise for the closed rectangle (off the bands the two coincide) *)
+Theorem C07_pip_correct_rect_closed {T} {O : Ops T} {RL : RingLaws T} {OL : OrderLaws T}
+    {FL : FieldLaws T} {SL : SqrtLaws T} (eps eta m : T) (r : rect) (x : @vec T) :
+  (0 <= eps)%T -> (eps < 1)%T -> (0 <= eta)%T -> (eta <= m + m)%T -> rect_wf r ->
+  (tabs (side_of (rect_surface r) x) <= eta)%T -> off_bands m r x ->
+  pip_correct_at eps eta (in_rect_closed r) (rect_surface r) x.
+Proof. exact (pip_correct_rect_closed eps eta m r x). Qed.
+Print Assumptions C07_pip_correct_rect_closed.
+
+(** ... and spelled out for a floor / ceiling: the rectangle [x0,x1] x [y0,y1] at height z with
+    normal (0,0,+1) or (0,0,-1) ([sgn up]), in each of its 8 vertex orders ([rect_orders8]) *)
+Theorem C07_pip_correct_rect_horizontal {T} {O : Ops T} {RL : RingLaws T} {OL : OrderLaws T}
+    {FL : FieldLaws T} {SL : SqrtLaws T} (eps eta m x0 x1 y0 y1 z : T) (up : bool)
+    (poly : list (@vec T)) (x : @vec T) :
+  (0 <= eps)%T -> (eps < 1)%T -> (0 <= eta)%T -> (eta <= m + m)%T ->
+  (x0 < x1)%T -> (y0 < y1)%T -> In poly (rect_orders8 x0 x1 y0 y1 z) ->
+  (tabs (vz x - z) <= eta)%T ->
+  (m < tabs (vx x - x0))%T -> (m < tabs (vx x - x1))%T ->
+  (m < tabs (vy x - y0))%T -> (m < tabs (vy x - y1))%T ->
+  (point_in_polygon eps eta x poly (mkv 0 0 (sgn up))%T = true
+   <-> ((x0 < vx x)%T /\ (vx x < x1)%T) /\ ((y0 < vy x)%T /\ (vy x < y1)%T)).
+Proof. exact (pip_horizontal_rect eps eta m x0 x1 y0 y1 z up poly x). Qed.
+Print Assumptions C07_pip_correct_rect_horizontal.
+
+(** (6) C07_segment_logic_rect -- the segment logic (3) for shoebox surfaces WITHOUT the
+    [pip_correct_at] hypothesis.
+    (a) endpoints farther than eta (and p than epsilon) from the plane, and the point where the
+    line pq crosses the plane (if any) farther than m from the four edge lines:
+    hidden <-> the open segment meets the rectangle. *)
+Theorem C07_segment_logic_rect {T} {O : Ops T} {RL : RingLaws T} {OL : OrderLaws T}
+    {FL : FieldLaws T} {SL : SqrtLaws T} (eps eta m : T) (r : rect) (p q : @vec T) :
+  (0 <= eps)%T -> (eps < 1)%T -> (0 <= eta)%T -> (eta <= m + m)%T -> rect_wf r ->
+  (eps < tabs (side_of (rect_surface r) p))%T ->
+  (eta < tabs (side_of (rect_surface r) p))%T -> (eta < tabs (side_of (rect_surface r) q))%T ->
+  (forall t : T, on_plane (rect_surface r) (lerp p q t) -> off_bands m r (lerp p q t)) ->
+  (basic_visibility eps eta p q (rect_surface r) = false
+   <-> seg_meets (in_rect r) (rect_surface r) p q).
+Proof. exact (segment_logic_rect eps eta m r p q). Qed.
+Print Assumptions C07_segment_logic_rect.
+
+(** (b) one endpoint in the rectangle, the other off the plane: hidden <-> the other end is behind *)
+Theorem C07_segment_logic_rect_endpoint {T} {O : Ops T} {RL : RingLaws T} {OL : OrderLaws T}
+    {FL : FieldLaws T} {SL : SqrtLaws T} (eps eta m : T) (r : rect) (this other : @vec T) :
+  (0 <= eps)%T -> (eps < 1)%T -> (0 <= eta)%T -> (eta <= m + m)%T -> rect_wf r ->
+  (tabs (side_of (rect_surface r) this) <= eta)%T -> off_bands m r this -> in_rect r this ->
+  (eta < tabs (side_of (rect_surface r) other))%T ->
+  (basic_visibility eps eta this other (rect_surface r) = false
+   <-> (vdot (s_nrm (rect_surface r)) (vsub other this) < 0)%T) /\
+  (basic_visibility eps eta other this (rect_surface r) = false
+   <-> (vdot (s_nrm (rect_surface r)) (vsub other this) < 0)%T).
+Proof. exact (segment_logic_rect_endpoint eps eta m r this other). Qed.
+Print Assumptions C07_segment_logic_rect_endpoint.
+
+(** (c) both within eta of the plane, off the bands, one of them in the rectangle: hidden *)
+Theorem C07_segment_logic_rect_coplanar {T} {O : Ops T} {RL : RingLaws T} {OL : OrderLaws T}
+    {FL : FieldLaws T} {SL : SqrtLaws T} (eps eta m : T) (r : rect) (p q : @vec T) :
+  (0 <= eps)%T -> (eps < 1)%T -> (0 <= eta)%T -> (eta <= m + m)%T -> rect_wf r ->
+  (tabs (side_of (rect_surface r) p) < eta)%T -> (tabs (side_of (rect_surface r) q) < eta)%T ->
+  off_bands m r p -> off_bands m r q -> in_rect r p \/ in_rect r q ->
+  basic_visibility eps eta p q (rect_surface r) = false.
+Proof. exact (segment_logic_rect_coplanar eps eta m r p q). Qed.
+Print Assumptions C07_segment_logic_rect_coplanar.
+
+(** (7) The margin is sharp and the bands are not empty of errors (exact computation over Qc,
+    unit-square floor, epsilon = eta = 1e-6): the point (1/2, 1 + eta/2, 0) is in the plane,
+    OUTSIDE the closed rectangle, exactly eta/2 from the edge line v = 1 -- and reported inside ... *)
+Theorem C07_pip_rect_margin_sharp :
+  pip e6 e6 (rect_surface unit_floor) just_outside = true /\
+  ~ in_rect_closed unit_floor just_outside /\
+  on_plane (rect_surface unit_floor) just_outside /\
+  (let d := tabs (vcoord AxZ just_outside - r_vb unit_floor)%T in (d + d <= e6)%T /\ (e6 <= d + d)%T).
+Proof. exact margin_sharp_witness. Qed.
+Print Assumptions C07_pip_rect_margin_sharp.
+
+(** ... and on the two edge lines orthogonal to the ray the test is half-open (the comparison
+    b.x > pt.x is strict): (1, 1/2, 0) on the edge u = 1 is reported outside, (0, 1/2, 0) on the
+    edge u = 0 inside.  (/repo behaves the same; inside the property's 1 mm clearance.) *)
+Theorem C07_pip_rect_edge_half_open :
+  in_rect_closed unit_floor (vqc 1 1, vqc 1 2, vqc 0 1) /\
+  pip e6 e6 (rect_surface unit_floor) (vqc 1 1, vqc 1 2, vqc 0 1) = false /\
+  in_rect_closed unit_floor (vqc 0 1, vqc 1 2, vqc 0 1) /\
+  pip e6 e6 (rect_surface unit_floor) (vqc 0 1, vqc 1 2, vqc 0 1) = true.
+Proof. exact right_edge_excluded_witness. Qed.
+Print Assumptions C07_pip_rect_edge_half_open.
+
+(** (8) General position: the tolerances drop out.  For ANY polygon [poly2] in the horizontal plane
+    (z = 0) and a point [pt] such that for every side (a0, a1) ([side_gp]): both end points are
+    farther than dl (eta <= 2 dl) from the ray's line y = pt.y, a0 <> a1, and -- if the side
+    crosses that line -- epsilon |a1 - a0| < |a1.y - a0.y| (steeper than the epsilon gate; a
+    flatter crossing side is skipped by the code, which then reports interior points of sliver
+    polygons outside): the winding count of the model is the signed crossing number
+    [crossing_number], which uses comparisons and ring operations only:
+    -1 for a side crossing the line upwards with pt strictly to its left, +1 for a side crossing
+    it downwards with pt strictly to its right, 0 otherwise. *)
+Theorem C07_winding_general_position {T} {O : Ops T} {RL : RingLaws T} {OL : OrderLaws T}
+    {FL : FieldLaws T} {SL : SqrtLaws T} (eps eta dl : T) (pt : @vec T) (poly2 : list (@vec T)) :
+  (0 <= eps)%T -> (0 <= eta)%T -> (eta <= dl + dl)%T ->
+  vz pt = 0%T -> (forall v, In v poly2 -> vz v = 0%T) ->
+  (forall s, In s (sides poly2) -> side_gp eps dl pt s) ->
+  winding eps eta pt poly2 = crossing_number pt poly2.
+Proof. exact (winding_general_position eps eta dl pt poly2). Qed.
+Print Assumptions C07_winding_general_position.
+
+(** ... so for a polygon in a plane orthogonal to a coordinate axis (unit normal, any of the six)
+    [point_in_polygon] is "crossing number <> 0" of the rotated and flattened data
+    ([proj2d ax up] = [flat] after [rotation_to_z]) *)
+Theorem C07_pip_general_position {T} {O : Ops T} {RL : RingLaws T} {OL : OrderLaws T}
+    {FL : FieldLaws T} {SL : SqrtLaws T} (eps eta dl : T) (p : @vec T) (poly : list (@vec T))
+    (ax : axis) (up : bool) :
+  (0 <= eps)%T -> (0 <= eta)%T -> (eta <= dl + dl)%T ->
+  (tabs (vdot (vsub p (nthv poly 0)) (axis_normal ax up)) <= eta)%T ->
+  (forall s, In s (sides (map (proj2d ax up) poly)) -> side_gp eps dl (proj2d ax up p) s) ->
+  point_in_polygon eps eta p poly (axis_normal ax up)
+  = negb (Z.eqb (crossing_number (proj2d ax up p) (map (proj2d ax up) poly)) 0%Z).
+Proof. exact (pip_general_position eps eta dl p poly ax up). Qed.
+Print Assumptions C07_pip_general_position.
+
+(** (9) Triangles.  The crossing number of a non-degenerate triangle is non-zero exactly for the
+    points strictly inside (on the same side of all three sides; it is -1 for a counter-clockwise
+    and +1 for a clockwise triangle), for every point on none of the side lines whose ray line
+    passes through no vertex -- ordered ring only ... *)
+Theorem C07_crossing_triangle {T} {O : Ops T} {RL : RingLaws T} {OL : OrderLaws T}
+    (pt A B C : @vec T) :
+  vy A <> vy pt -> vy B <> vy pt -> vy C <> vy pt ->
+  cross2 A B pt <> 0%T -> cross2 B C pt <> 0%T -> cross2 C A pt <> 0%T -> cross2 A B C <> 0%T ->
+  (crossing_number pt [A; B; C] <> 0%Z <-> inside_tri A B C pt).
+Proof. exact (crossing_triangle pt A B C). Qed.
+Print Assumptions C07_crossing_triangle.
+
+(** ... hence [pip_correct_at] for triangles on axis planes in general position ([tri_gp]: the
+    three sides satisfy [side_gp], the point is on no side line, the triangle is not degenerate) *)
+Theorem C07_pip_correct_triangle {T} {O : Ops T} {RL : RingLaws T} {OL : OrderLaws T}
+    {FL : FieldLaws T} {SL : SqrtLaws T} (eps eta dl : T) (P0 P1 P2 p : @vec T) (ax : axis) (up : bool) :
+  (0 <= eps)%T -> (0 <= eta)%T -> (eta <= dl + dl)%T ->
+  (tabs (side_of ([P0; P1; P2], axis_normal ax up) p) <= eta)%T ->
+  tri_gp eps dl (proj2d ax up P0) (proj2d ax up P1) (proj2d ax up P2) (proj2d ax up p) ->
+  pip_correct_at eps eta
+    (fun x => inside_tri (proj2d ax up P0) (proj2d ax up P1) (proj2d ax up P2) (proj2d ax up x))
+    ([P0; P1; P2], axis_normal ax up) p.
+Proof. exact (pip_correct_triangle eps eta dl P0 P1 P2 p ax up). Qed.
+Print Assumptions C07_pip_correct_triangle.
